@@ -6,6 +6,7 @@
   "independent of map iteration order" clause, invariance of the verdict under permutations.
 -/
 import VM.Properties.C01
+import VM.Generated.SpecFacts
 namespace VM.C08
 open VM Impl Spec
 
@@ -19,5 +20,16 @@ theorem C08_history_irrelevant (cfg : Cfg) (opts : Opts) (O : Oracles) (r : Stri
     (p : String) (history : List JVal) (v : JVal) :
     (history.map (validate cfg opts O r s p), validate cfg opts O r s p v).2
       = validate cfg opts O r s p v := rfl
+
+/-! ### T1: no validator leaves a range over a map early (except to answer "is there a key such that …") -/
+
+/-- every range loop of the validator files that can be left early ranges over a slice or a fixed-size array
+    of child validators, or is an existence search (`if cond { found = true; break }`): the answer of a
+    validator does not depend on the order in which Go ranges over the instance's or the schema's maps -/
+theorem validator_exit_ranges_order_free :
+    Generated.validatorExitRanges.all (fun e => e.cls == "slice" || e.cls == "exists") = true := by decide
+
+/-- the extractor still sees the loops (the table is not vacuously fine) -/
+theorem validator_exit_ranges_seen : Generated.validatorExitRanges.length ≥ 8 := by decide
 
 end VM.C08
